@@ -2050,6 +2050,12 @@ fn near_miss(rng: &mut Rng, info: &FontInfo, base: &Op) -> Op {
                 positions: op.7,
             }
         }
+        // the same code point 65536 further up (a key that keeps only the low 16 bits)
+        Op::LookupGlyph { ch, required, vs } if rng.pct(20) => Op::LookupGlyph {
+            ch: if ch < 0x10000 { ch + 0x10000 } else { ch - 0x10000 },
+            required,
+            vs,
+        },
         Op::LookupGlyph { ch, required, vs } => match rng.below(3) {
             0 => Op::LookupGlyph {
                 ch,
@@ -2066,6 +2072,19 @@ fn near_miss(rng: &mut Rng, info: &FontInfo, base: &Op) -> Op {
                 required,
                 vs,
             },
+        },
+        Op::MapGlyphs {
+            text,
+            script,
+            required,
+        } if rng.pct(15) => Op::MapGlyphs {
+            // every BMP character moved 65536 code points up
+            text: text
+                .chars()
+                .map(|c| char::from_u32(c as u32 + 0x10000).filter(|_| (c as u32) < 0x10000).unwrap_or(c))
+                .collect(),
+            script,
+            required,
         },
         Op::MapGlyphs {
             text,
